@@ -50,6 +50,20 @@ struct Scenario {
 
 fn scenario(seed: u64) -> Scenario {
 	let mut rng = Rng::new(seed ^ 0x5ce);
+	// boundary scenario (a fifth of the runs): while the log worker is busy with one very large commit, a
+	// single client queues one small commit and sixteen commits of exactly 1 MiB (key 32 + value), so that
+	// the queue stands at small + 16 MiB when the client's next commit is throttled; the worker's next pop
+	// leaves EXACTLY the 16 MiB limit queued
+	if rng.chance(1, 5) {
+		let mut plan = vec![Plan { keys: vec![0], len: 24 * 1048576 - 32, pause_us: 0 }, Plan { keys: vec![1], len: rng.range(100, 5000) as usize, pause_us: 0 }];
+		for i in 0..16 {
+			plan.push(Plan { keys: vec![2 + i], len: 1048576 - 32, pause_us: 0 });
+		}
+		for _ in 0..rng.range(2, 6) {
+			plan.push(Plan { keys: vec![rng.below(NKEYS as u64) as usize], len: rng.range(16, 3000) as usize, pause_us: 0 });
+		}
+		return Scenario { nclients: 1, huge: true, always_flush: rng.chance(1, 3), plan }
+	}
 	let nclients = rng.range(1, 3) as usize;
 	let ntx = rng.range(20, 160) as usize;
 	let huge = rng.chance(1, 6);
